@@ -115,6 +115,7 @@ def _poly(nm, d):
 
 def _run(facts, fn, args):
     ex = SX.Engine(facts, "ws", c07_dft._models(_first), max_paths=8, max_depth=8, inline_limit=600, max_visits=100000)
+    ex.strict_flow = True
     try:
         paths = [p for p in ex.run(fn, args) if "panic" not in p.flags]
     except RecursionError:
